@@ -52,6 +52,10 @@ axiom("chain_unfold", "forall(lambda o, q: imp(allocated(o) and in_chain(o, q) a
       "q == o or in_chain(cast(o, 'ref:ProblemWrapper')._inner, q)), o='ref:Problem', q='ref:Problem', pat=in_chain(o, q))")
 axiom("chain_leaf", "forall(lambda o, q: imp(in_chain(o, q) and instance_of(o, 'FunctionProblem'), q == o), "
       "o='ref:Problem', q='ref:Problem', pat=in_chain(o, q))")
+axiom("chain_typed", "forall(lambda o, q: imp(in_chain(o, q) and q != o, instance_of(q, 'Problem')), "
+      "o='ref:Problem', q='ref:Problem', pat=in_chain(o, q))")
+axiom("chain_alloc", "forall(lambda o, q: imp(in_chain(o, q) and allocated(o), allocated(q)), "
+      "o='ref:Problem', q='ref:Problem', pat=in_chain(o, q))")
 axiom("chain_inner", "forall(lambda o: in_chain(o, inner(o)) and depth(inner(o)) == 0 and inner(inner(o)) == inner(o), "
       "o='ref:Problem')")
 # the two possible outcomes of an evaluation through any wrapper stack
@@ -67,3 +71,13 @@ trusted("the user's objective is a deterministic total function F(problem, genom
 
 trusted("WfProblem is an opaque, state-independent predicate: the fields it reads (_inner, _maximize, _bounds, _cache, "
         "_durations) are written only by constructors (checked mechanically on every run)")
+
+from pyvc.spec import ghost_definition  # noqa: E402
+ghost_definition("ProblemWrapper", "wrapper_link", """
+    imp(self._inner != None, inner(self) == inner(self._inner) and depth(self) == depth(self._inner) + 1 and in_chain(self, self._inner)
+        and forall(lambda q: imp(in_chain(self, q), q == self or in_chain(self._inner, q)), q='ref:Problem', pat=in_chain(self, q)))
+""", "defining equations of the ghost functions inner/depth/in_chain for a newly constructed wrapper (they are the closure of the "
+     "_inner link, which only constructors write): assumed when the constructor returns")
+ghost_definition("FunctionProblem", "function_problem_link", """
+    inner(self) == self and depth(self) == 0 and dirmax(self) == self._maximize and box(self) == self._bounds
+""", "defining equations of inner/depth/dirmax/box for a newly constructed FunctionProblem: assumed when the constructor returns")
